@@ -459,24 +459,6 @@ def _fit(bv, have, k, signed=False):
     return z3.SignExt(k - have, bv) if signed else z3.ZeroExt(k - have, bv)
 
 
-DIV_BY_WITNESS = False  # opt-in (set by a check before exploring): x // m, x % m for x >= 0 and constant m are lowered as fresh
-#                         (q, r) with the definitional side constraint x == q*m + r, r < m instead of a bit-blasted divider
-
-
-def _div_witness(x, m):
-    d = x._bv.get(("qr", m))
-    if d is None:
-        Wx = max(x.U, m.bit_length())
-        mb = m.bit_length()
-        q = z3.BitVec(f"divq!{x.id}!{m}", Wx)
-        rem = z3.BitVec(f"divr!{x.id}!{m}", mb)
-        W2 = Wx + 1  # q <= hi//m and r < m  =>  q*m + r <= hi + m - 1 < 2^(Wx+1): no wrap-around at W2 bits
-        _side("bv", z3.And(z3.ZeroExt(1, q) * z3.BitVecVal(m, W2) + z3.ZeroExt(W2 - mb, rem) == z3.ZeroExt(1, low(x, Wx)),
-                           z3.ULT(rem, z3.BitVecVal(m, mb)), z3.ULE(q, z3.BitVecVal(x.hi // m, Wx))))
-        d = x._bv[("qr", m)] = (q, rem, Wx)
-    return d
-
-
 def low(n, k):
     """BV(k) equal to value(n) mod 2^k"""
     r = n._bv.get(k)
@@ -519,9 +501,6 @@ def low(n, k):
     elif op == "cat":
         full = z3.Concat(*[low(it, 8) for it in a]) if len(a) > 1 else low(a[0], 8)
         r = _fit(full, 8 * len(a), k)
-    elif op in ("mod", "div") and DIV_BY_WITNESS and a[0].lo >= 0:
-        q, rem, Wx = _div_witness(a[0], a[1])
-        r = _fit(q if op == "div" else _fit(rem, a[1].bit_length(), Wx), Wx, k)
     elif op == "mod":
         x, m = a
         if x.lo >= 0:
@@ -1675,6 +1654,12 @@ class SBytes:
         o = list(o)
         if len(o) != len(self.items):
             return FALSE
+        if len(o) >= 2:
+            # when one side is the complete byte decomposition of an integer (provenance), compare the integers
+            ca = n_cat([lift(i) for i in self.items])
+            cb = n_cat([lift(i) for i in o])
+            if ca.op not in ("cat", "const") or cb.op not in ("cat", "const"):
+                return b_cmp("eq", ca, cb)
         conds = []
         for a, b in zip(self.items, o):
             if isinstance(a, SI) or isinstance(b, SI):
